@@ -75,6 +75,32 @@ def run(payload):
                 # vanishing variance gives the deterministic result
         eq = Mult(0.3, 0.0, 0.0, "ito", np.random.default_rng(1))
         eq.noise = 0
+    # ---- per-field variances of the PDE class, for every way of writing the equations and the variances
+    from pde import PDE, FieldCollection
+    grid = CartesianGrid([(0, 1)], 4)
+    vol = grid.cell_volumes
+    variances = {"a": 1.0, "b": 2.0}
+    for rhs_kind in ("dict", "pairs"):
+        for noise_kind in ("dict", "list", "partial_dict"):
+            rhs = {"a": "0.5", "b": "-a"} if rhs_kind == "dict" else [("a", "0.5"), ("b", "-a")]
+            noise = {"dict": variances, "list": [1.0, 2.0], "partial_dict": {"b": 2.0}}[noise_kind]
+            var = np.array([[0.0 if noise_kind == "partial_dict" else 1.0], [2.0]])
+            seed = int(rng0.integers(0, 10**6))
+            dt = 0.25
+            u0 = rng0.uniform(0.5, 2, (2, 4))
+            cases += 1
+            try:
+                eq = PDE(rhs, noise=noise, rng=np.random.default_rng(seed))
+                state = FieldCollection([ScalarField(grid, u0[0]), ScalarField(grid, u0[1])])
+                res = eq.solve(state, t_range=dt, dt=dt, solver="euler", backend="numpy", tracker=None)
+            except Exception as e:
+                fails.append({"id": "pde_class_per_field_variances", "rhs": rhs_kind, "noise": noise_kind, "error": f"{type(e).__name__}: {e}"})
+                continue
+            xi = np.random.default_rng(seed).standard_normal((2, 4))
+            want = u0 + dt * np.array([0.5 + 0 * u0[0], -u0[0]]) + np.sqrt(var * dt / vol) * xi
+            dev = float(np.max(np.abs(res.data - want)))
+            if dev > 1e-10:
+                fails.append({"id": "pde_class_per_field_variances", "rhs": rhs_kind, "noise": noise_kind, "seed": seed, "deviation": dev, "is_sde": bool(eq.is_sde)})
     return {"ok": True, "cases": cases, "failures": fails[:6]}
 
 
